@@ -179,6 +179,36 @@ def hear(loop, data: bytes, kind: str) -> str:
     return f"heard T {tok_str(udn)} {tok_str(str(dst))} {tok_str(loc or '')} {codes.get(source, 7)}"
 
 
+def st_class(st: Optional[str], device, answered: bool) -> str:
+    if st is None:
+        return "absent"
+    low = st.lower()
+    if low == "ssdp:all":
+        return "all"
+    if low == "upnp:rootdevice":
+        return "rootdevice"
+    if any(d.udn.lower() == low for d in device.all_devices):
+        return "uuid-hit"
+    if low.startswith("uuid:"):
+        return "uuid-miss"
+    if answered:
+        return "type-hit"
+    types = [d.device_type.lower() for d in device.all_devices] + [s.service_type.lower() for s in device.all_services]
+    if any(low.rpartition(":")[0] == t.rpartition(":")[0] for t in types):
+        return "type-version-miss"
+    return "foreign"
+
+
+def mx_class(mx: Optional[str]) -> str:
+    if mx is None:
+        return "absent"
+    try:
+        v = int(mx)
+    except ValueError:
+        return "non-numeric"
+    return "negative" if v < 0 else "0" if v == 0 else "1-5" if v <= 5 else "6+"
+
+
 # ---------------------------------------------------------------------------------------------
 # running one case
 
@@ -352,6 +382,13 @@ def run_recipe(ctx: Ctx, recipe: Dict[str, Any], cid: str) -> Case:
                     lines.append(hear(loop, data, "search"))
                     n_sent += 1
                 tags.add("answers:" + ("0" if not mine else "1" if len(mine) == 1 else "2-5" if len(mine) <= 5 else "6+"))
+                tags.add("st:" + st_class(rec["st"], device, bool(mine)))
+                tags.add("mx:" + mx_class(rec["mx"]))
+                tags.add("jitter:" + ("none" if not rec["rr"] else "max" if rec["sel"] == "max" else "min" if rec["sel"] == 0 else "mid"))
+                if rec["line"] != M_SEARCH or rec["man"] != DISCOVER:
+                    tags.add("not-msearch")
+                if mine and mine[0][0] > rec["time"]:
+                    tags.add("delayed-send")
             if not searches and stray:
                 lines.append("sent-without-search")
             if "start" in ann:
